@@ -1,5 +1,6 @@
 (* C14 - property theorems. *)
-From ASV.C14 Require Import Model Proofs Proofs2 Proofs3.
+From ASV.C14 Require Import Model Proofs Proofs2 Proofs3 Proofs4 Proofs5.
+From Coq Require Import Sorting.Permutation Sorting.Sorted.
 
 (* module construction never fails and partitions the (stably sorted, non-docking) domains in order,
    without loss or duplication, into non-empty modules - for every finite domain sequence over the
@@ -61,6 +62,91 @@ Theorem C14_reload : forall domains ms,
   build_modules_for_cds domains = Ok ms -> Forall (fun m => reload m = Ok m) ms.
 Proof. exact build_reload. Qed.
 Print Assumptions C14_reload.
+
+(* the modules do not depend on the order in which the hits are supplied: any two arrangements of the same
+   hits with pairwise different positions give the same result (modules, slots, borders - or the same failure,
+   which C14_build_total_partition excludes).  The components AND the two-component look-ahead of the tandem
+   carrier protein rule are both taken from the list sorted by query_start (Model.v build: la = firstn 2 rest) *)
+Theorem C14_supply_order_independent : forall domains domains',
+  Permutation domains domains' -> NoDup (map qstart domains) ->
+  build_modules_for_cds domains = build_modules_for_cds domains'.
+Proof. exact build_order_independent. Qed.
+Print Assumptions C14_supply_order_independent.
+
+(* with tied positions too: handing the hits over in protein order (stable sort) changes nothing, and hits
+   already in protein order are processed exactly as supplied *)
+Theorem C14_position_order_is_canonical : forall domains,
+  build_modules_for_cds (sort_comps domains) = build_modules_for_cds domains /\
+  (StronglySorted (fun a b => qstart a <= qstart b) domains -> sort_comps domains = domains).
+Proof. exact position_order_canonical. Qed.
+Print Assumptions C14_position_order_is_canonical.
+
+(* one gene, everything the run-time specification spec_fn4 evaluates on the implementation's output: for
+   every hit list in any supply order construction succeeds, the modules partition the position-sorted
+   non-docking domains, each is non-empty, obeys the rules and is rebuilt identically from its saved form,
+   and the hits handed over in protein order give the same modules *)
+Theorem C14_single_gene : forall domains,
+  Forall (fun c => c_classified c = true) domains ->
+  exists ms, build_modules_for_cds domains = Ok ms /\
+             flat ms = keep (sort_comps domains) /\
+             Forall (fun m => m_comps m <> [] /\ rules_ok m /\ reload m = Ok m) ms /\
+             mapM reload ms = Ok ms /\
+             build_modules_for_cds (sort_comps domains) = Ok ms.
+Proof. exact single_gene_all. Qed.
+Print Assumptions C14_single_gene.
+
+(* the carrier protein clauses read out of layout_spec, for every module build_modules_for_cds returns:
+   (1) at most one carrier protein, or exactly two and then the second one is directly followed by the two members
+   of a DOUBLE_TRANSPORTER_CASES entry in the registered order (the documented tandem case, exactly as tabulated;
+   no carrier protein anywhere else in the module); (2) a modification domain behind a carrier protein is a KR
+   in a module that is trans-AT up to there, or one of the two domains directly behind the second carrier
+   protein (pair_open: two carrier proteins seen, fewer than two domains since the last one) *)
+Theorem C14_carrier_protein_clauses : forall domains ms,
+  Forall (fun c => c_classified c = true) domains -> build_modules_for_cds domains = Ok ms ->
+  Forall (fun m =>
+    ((cnt c_cp (m_comps m) <= 1)%nat \/
+     exists pre cp1 mid cp2 a b post,
+       m_comps m = pre ++ cp1 :: mid ++ cp2 :: a :: b :: post /\ c_cp cp1 = true /\ c_cp cp2 = true /\
+       existsb c_cp pre = false /\ existsb c_cp mid = false /\ existsb c_cp (a :: b :: post) = false /\
+       In [lab a; lab b] Tables_gen.c14_double_transporter_cases) /\
+    (forall pre c post, m_comps m = pre ++ c :: post -> c_mod c = true -> existsb c_cp pre = true ->
+       (c_kr c = true /\ spec_trans_at pre = true) \/ pair_open pre = true)) ms.
+Proof. exact build_carrier_clauses. Qed.
+Print Assumptions C14_carrier_protein_clauses.
+
+(* the two list slots are functions of the component list as well: _modifications holds exactly the
+   modification domains, _others everything that is neither starter/loader class, modification nor end, except
+   the first carrier protein (others_pos, by position) - for every module that is rebuilt identically from its
+   saved form, i.e. (C14_reload, C14_combine_total) every module build_modules_for_cds and combine_modules return *)
+Theorem C14_slot_lists : forall m, reload m = Ok m ->
+  m_mods m = filter c_mod (m_comps m) /\ m_others m = others_pos (m_comps m).
+Proof. exact reload_lists. Qed.
+Print Assumptions C14_slot_lists.
+
+Theorem C14_build_slot_lists : forall domains ms,
+  Forall (fun c => c_classified c = true) domains -> build_modules_for_cds domains = Ok ms ->
+  Forall (fun m => m_mods m = filter c_mod (m_comps m) /\ m_others m = others_pos (m_comps m)) ms.
+Proof. exact build_lists. Qed.
+Print Assumptions C14_build_slot_lists.
+
+(* the loader stands in front of every modification, carrier protein and terminating domain of its module
+   (L_order, a clause of the run-time specification) - again for every module that reloads identically, and
+   directly for the modules of build_modules_for_cds *)
+Theorem C14_loader_in_front : forall m, reload m = Ok m -> L_order (m_comps m) = true.
+Proof. exact reload_loader_order. Qed.
+Print Assumptions C14_loader_in_front.
+
+Theorem C14_build_loader_in_front : forall domains ms,
+  Forall (fun c => c_classified c = true) domains -> build_modules_for_cds domains = Ok ms ->
+  Forall (fun m => L_order (m_comps m) = true) ms.
+Proof. exact build_loader_order. Qed.
+Print Assumptions C14_build_loader_in_front.
+
+(* the run-time specification identifies components by their index in the input (others_spec); with pairwise
+   different indices that is the positional description *)
+Theorem C14_others_spec_positional : forall cs, NoDup (map cid cs) -> others_spec cs = others_pos cs.
+Proof. exact others_spec_pos. Qed.
+Print Assumptions C14_others_spec_positional.
 
 (* merging keeps all domains of head and tail in order (plus the trailing KR of the documented
    trans-AT case), replaces exactly the last module of the previous gene and removes exactly the
@@ -143,6 +229,34 @@ Example C14_ex_third_cp_refused :
     map cid (m_comps m1) = [0; 1; 2; 3; 4] /\ map cid (m_comps m2) = [5] /\ map cid (m_comps m3) = [6; 7] /\
     cnt c_cp (m_comps m1) = 2%nat /\ layout_spec (m_comps m1) = true.
 Proof. exact third_cp_refused. Qed.
+
+(* supply order: the LnmJ layout KS ACP ACP LPG Beta listed by profile (ACP ACP Beta LPG KS) is the same
+   single module as in position order; both hypotheses of C14_supply_order_independent are met *)
+Example C14_ex_supply_order :
+  let by_position := [mkComp 41 1 0 10; mkComp 1 0 1 20; mkComp 1 0 2 30; mkComp 28 0 3 40; mkComp 11 0 4 50] in
+  let by_profile := [mkComp 1 0 1 20; mkComp 1 0 2 30; mkComp 11 0 4 50; mkComp 28 0 3 40; mkComp 41 1 0 10] in
+  Permutation by_position by_profile /\ NoDup (map qstart by_position) /\
+  exists m, build_modules_for_cds by_profile = Ok [m] /\ build_modules_for_cds by_position = Ok [m] /\
+            map cid (m_comps m) = [0; 1; 2; 3; 4] /\ cnt c_cp (m_comps m) = 2%nat.
+Proof. exact supply_order_example. Qed.
+
+(* the list slots of the LnmJ module: the second carrier protein is the only entry of _others, the pair
+   members are the modifications; the module meets the hypothesis of C14_slot_lists *)
+Example C14_ex_slot_lists :
+  exists m, build_modules_for_cds
+      [mkComp 41 1 0 10; mkComp 1 0 1 20; mkComp 1 0 2 30; mkComp 28 0 3 40; mkComp 11 0 4 50] = Ok [m] /\
+    reload m = Ok m /\ map cid (m_mods m) = [3; 4] /\ map cid (m_others m) = [2] /\
+    map cid (others_pos (m_comps m)) = [2].
+Proof. exact slot_lists_example. Qed.
+
+(* the partner domains in the opposite order are NOT the documented case: KS ACP ACP Beta LPG is split in
+   front of the second carrier protein *)
+Example C14_ex_reversed_pair_refused :
+  exists m1 m2 m3,
+    build_modules_for_cds
+      [mkComp 41 1 0 10; mkComp 1 0 1 20; mkComp 1 0 2 30; mkComp 11 0 3 40; mkComp 28 0 4 50] = Ok [m1; m2; m3] /\
+    map cid (m_comps m1) = [0; 1] /\ map cid (m_comps m2) = [2] /\ map cid (m_comps m3) = [3; 4].
+Proof. exact reversed_pair_refused. Qed.
 
 (* the step invariant is met by a real intermediate state: [KS, ACP] about to take a second ACP *)
 Example C14_ex_step_hyps :
